@@ -43,7 +43,7 @@ def run(pid, tier, seed, replay=None):
     wd = V.workdir(pid, "records")
     out = os.path.join(wd, "records.ndjson")
     cmd = [binary, cfg["sub"], "-seed", str(seed), "-tier", tier, "-out", out] + cfg.get("args", [])
-    r = subprocess.run(cmd, env=V.goenv(), capture_output=True, text=True, timeout=3600)
+    r = subprocess.run(cmd, env=V.goenv(), capture_output=True, text=True, timeout=1500)
     if r.returncode != 0:
         V.log(r.stdout[-2000:], r.stderr[-3000:])
         raise V.Inconclusive("record harness failed rc=%d" % r.returncode)
